@@ -24,19 +24,28 @@ def roles(ctx):
     try:
         assert ret[0] == 'tuple' and len(ret[1]) == 2
         r, e = ret[1]
-        assert r[0] == 'app' and e[0] == 'app' and len(r[2]) == 2 and len(e[2]) == 3
-        w, v = r[2]
-        assert e[2][1] is w and e[2][2] is v
+        # E(split, W, V) with (W, V) = WV(split), split = S(sample); the R-hat component is R(W, V) through a helper, or the
+        # ratio written in place (an inlined one-line helper)
+        assert e[0] == 'app' and len(e[2]) == 3
+        w, v = e[2][1], e[2][2]
         assert T.is_app(w) and w[1] == 'proj0' and T.is_app(v) and v[1] == 'proj1' and w[2][0] is v[2][0]
         wv = w[2][0]
         assert wv[0] == 'app' and len(wv[2]) == 1
         s = wv[2][0]
         assert s is e[2][0] and s[0] == 'app' and s[2] == (SAMPLE,)
-        out = {'rhat': r[1], 'ess': e[1], 'withinvar': wv[1], 'split': s[1]}
+        out = {'ess': e[1], 'withinvar': wv[1], 'split': s[1]}
+        if r[0] == 'app' and len(r[2]) == 2 and r[2] == (w, v) and not r[1].startswith(('sqrt', 'div')) and '::' in r[1]:
+            out['rhat'] = r[1]
+        else:
+            out['rhat'] = None
+            ev.rhat_inline = (r, w, v)
     except (AssertionError, IndexError):
         return b, ev, None
     bodies = {}
     for role, key in out.items():
+        if key is None:
+            bodies[role] = 'inline'
+            continue
         bs = [x for x in ctx.facts.bodies if x['def_kind'] in ('Fn', 'AssocFn') and strip_generics(x['path']) == key]
         bodies[role] = bs[0] if len(bs) == 1 else None
     return b, ev, bodies
@@ -65,7 +74,7 @@ def run(ctx):
                why='R-hat and ESS are computed from the same split array and the same (W, var+)')
         split(ctx, bodies['split'])
         withinvar(ctx, bodies['withinvar'])
-        ratio(ctx, bodies['rhat'])
+        ratio(ctx, bodies['rhat'], ev)
     runstats(ctx)
     basic(ctx)
 
@@ -115,8 +124,14 @@ def withinvar(ctx, b):
            why='per parameter: B = h/(m-1) sum_j (mean_j - mean)^2, W = mean_j (1/d) sum_t (x_jt - mean_j)^2, var+ = (h-1)/h W + B/h')
 
 
-def ratio(ctx, b):
+def ratio(ctx, b, ev_top=None):
     A = 'R-hat ratio (helper of split_rhat_mean_ess)'
+    if b == 'inline':
+        r, w, v = ev_top.rhat_inline
+        inverted = r is T.app('sqrt', T.div(w, v))
+        ctx.eq('C11.ratio', A, 'rhat', r, T.app('sqrt', T.div(v, w)), sp=None, rule='ratio-inverted' if inverted else None,
+               why='R-hat = sqrt(var+/W): never below sqrt((h-1)/h), grows without bound as chains move apart (W/var+ would tend to 0)')
+        return
     ev = ctx.evaluate(b)
     ps = [p['pat']['name'] for p in b['params'] if p.get('pat', {}).get('k') == 'Binding']
     if len(ps) != 2:
